@@ -242,15 +242,6 @@ def _fp(obj, depth, seen):
 
 
 def fingerprint():
-    import kio.records.readers
-    import kio.records.writers
-    import kio.serial._implicit_defaults
-    import kio.serial._introspect
-    import kio.serial._parse
-    import kio.serial._serialize
-    import kio.serial._shared
-    import kio.serial.readers
-    import kio.serial.writers
     from kio.serial import entity_reader, entity_writer
 
     parts = []
@@ -258,9 +249,7 @@ def fingerprint():
         for ref in gc.get_referents(fn):
             if isinstance(ref, dict) and "__wrapped__" not in ref and "__module__" not in ref:
                 parts.append(name + _fp(ref, 0, frozenset()))
-    for mod in (kio.serial.writers, kio.serial.readers, kio.serial._serialize, kio.serial._parse,
-                kio.serial._introspect, kio.serial._implicit_defaults, kio.serial._shared,
-                kio.records.readers, kio.records.writers):
+    for mod in streams.kio_modules(("kio.serial", "kio.records")):
         for k, v in sorted(vars(mod).items()):
             if k.startswith("__"):
                 continue
@@ -408,18 +397,8 @@ def _task_faults(arg):
 # part 3: thread schedules
 # ---------------------------------------------------------------------------------------
 def traced_files():
-    import kio.records.readers
-    import kio.records.writers
-    import kio.serial._implicit_defaults
-    import kio.serial._introspect
-    import kio.serial._parse
-    import kio.serial._serialize
-    import kio.serial.readers
-    import kio.serial.writers
-
-    return frozenset(m.__file__ for m in (kio.serial._serialize, kio.serial._parse, kio.serial.writers,
-                                          kio.serial.readers, kio.serial._implicit_defaults,
-                                          kio.serial._introspect, kio.records.readers, kio.records.writers))
+    """Source files of kio.serial and kio.records (all of them, found by package)."""
+    return frozenset(m.__file__ for m in streams.kio_modules(("kio.serial", "kio.records")) if getattr(m, "__file__", None))
 
 
 OPCODE_FUNCS = ("write_entity", "read_entity", "write_tagged_field", "_write_varint", "read_unsigned_varint")
